@@ -251,6 +251,9 @@ def main(argv=None):
             json.dump(ev, f, indent=1, sort_keys=False)
             f.write("\n")
 
+    if os.environ.get("VERIF_DEBUG"):
+        for r in sorted(results, key=lambda r: -r.get("wall_s", 0))[:6]:
+            print(f"   shard {r['shard']}: {r.get('wall_s', 0):.1f}s, {r['evaluations']} cases")
     print(
         f"{prop} tier={tier} seed={seed}: {evaluations} cases, {len(nontrivial)} distinct non-trivial, "
         f"{len(results)} shards, {wall:.1f}s"
